@@ -153,6 +153,11 @@ func NewReader(data io.ReaderAt, size int64, opt *ReaderOptions) (*Reader, error
 		if err == nil {
 			return false
 		}
+		if IsReadError(err) {
+			// only malformed content is recoverable; a failure of the
+			// byte source must reach the caller in every mode
+			return true
+		}
 		if opt.ErrorHandling == ErrorHandlingReport {
 			var e *MalformedFileError
 			if errors.As(err, &e) {
